@@ -25,6 +25,7 @@ pub mod fixture;
 pub mod core;
 pub mod evalcommon;
 pub mod exec;
+pub mod fuzzleg;
 pub mod gen;
 pub mod instr;
 pub mod pools;
